@@ -146,6 +146,9 @@ func c02GenHistory(r *Rng) c02History {
 		}
 		k := r.Intn(20)
 		switch {
+		case k == 4 && r.Fork(uint64(s)).Chance(1, 3):
+			// the file of an open document is deleted on disk (watched-file event): the editor keeps editing its buffer
+			h.Steps = append(h.Steps, c02Step{Op: "deleted-on-disk", Doc: d})
 		case k == 3 && r.Fork(uint64(s)).Chance(1, 3):
 			// a settings change while documents are open: the server re-reads the workspace, the open documents keep
 			// their editor text
@@ -408,6 +411,11 @@ func c02RunHistory(c *Ctx, srv *Server, ws *Workspace, idx int, h c02History) bo
 			ws.Write(fmt.Sprintf("h%d_d%d.lua", idx, d), st.Text)
 			srv.DidSave(uris[d], st.Text)
 			c.Count("op_save", 1)
+		case "deleted-on-disk":
+			rel := fmt.Sprintf("h%d_d%d.lua", idx, d)
+			ws.Delete(rel)
+			srv.Notify("workspace/didChangeWatchedFiles", map[string]interface{}{"changes": []interface{}{map[string]interface{}{"uri": uris[d], "type": 3}}})
+			c.Count("op_deleted_on_disk", 1)
 		case "config":
 			// every notification differs from the one before (one check flag alternates), so the server acts on it
 			w := map[string]interface{}{}
